@@ -10,7 +10,7 @@
 (***************************************************************************)
 EXTENDS ZincWrite, Json, ZwCat
 
-Alphabet == <<34, 92, 44, 10, 32, 91, 93, 123, 125, 60, 62, 40, 41, 58, 64, 96, 78, 49, 97, 13, 36, 117, 65>>
+Alphabet == <<34, 92, 44, 10, 32, 91, 93, 123, 125, 60, 62, 40, 41, 58, 64, 96, 78, 49, 97, 13, 36, 117, 65, 9>>   \* (9: TAB, a control character)
 \*            "   \   ,   NL  SP  [   ]   {    }    <   >   (   )   :   @   `   N   1   a   CR  $   u    A
 
 Seed(di, si) == SpellDoc(Docs[di], IF si = 0 THEN DefaultStyle ELSE ExtraStyles[si])
